@@ -35,8 +35,8 @@ static double now(void) { struct timeval tv; gettimeofday(&tv, NULL); return tv.
 /* ======================= per-execution state (private to the child) ======================= */
 #define MAXT 24
 #define STACKSZ (1u << 20)
-enum { T_UNUSED, T_RUN, T_LOCKWAIT, T_JOINWAIT, T_DONE };
-typedef struct { int size, rank, team; } teamctx;
+enum { T_UNUSED, T_RUN, T_LOCKWAIT, T_JOINWAIT, T_DONE, T_BARWAIT };
+typedef struct { int size, rank, team, ws, curws; } teamctx; /* ws = work-sharing constructs this thread has entered in this team */
 typedef struct {
   ucontext_t ctx; char *stack; int state; int parent; void (*fn)(void *); void *arg;
   uint32_t vc[MAXT]; uint32_t joinvc[MAXT]; int waitlock; int nchildren_live; teamctx tc[8]; int tcdepth; int holds;
@@ -44,8 +44,9 @@ typedef struct {
 } thr_t;
 static thr_t TH[MAXT]; static int CUR = -1; static ucontext_t SCHED;
 typedef struct { void *key; int owner; uint32_t vc[MAXT]; } lock_t;
-static lock_t LOCKS[8]; static int nlocks = 0;
-typedef struct { int next, count; } team_t;
+static lock_t LOCKS[16]; static int nlocks = 0;
+typedef struct { long next, end, incr, chunk; } wshare_t;
+typedef struct { int next, count; int arrived, gen, ws_inited; uint32_t barvc[MAXT], relvc[MAXT]; wshare_t ws[8]; } team_t;
 static team_t TEAMS[4096]; static int nteams = 0;
 
 /* trace shared with the explorer */
@@ -142,7 +143,7 @@ static int enabled_list(int *out) {
 }
 static void pick_next(int kind) {
   int en[MAXT], n = enabled_list(en);
-  if (n == 0) { int live = 0; for (int i = 0; i < MAXT; i++) if (TH[i].state == T_LOCKWAIT || TH[i].state == T_JOINWAIT) live++; if (live) verdict(3, "deadlock: no enabled thread while %d thread(s) are blocked", live); CUR = -1; return; }
+  if (n == 0) { int live = 0; for (int i = 0; i < MAXT; i++) if (TH[i].state == T_LOCKWAIT || TH[i].state == T_JOINWAIT || TH[i].state == T_BARWAIT) live++; if (live) verdict(3, "deadlock: no enabled thread while %d thread(s) are blocked", live); CUR = -1; return; }
   int choice = 0;
   int idx = TR->npts;
   if (n > 1 || (CUR >= 0 && TH[CUR].state != T_RUN)) {
@@ -210,7 +211,7 @@ int omp_get_num_threads(void) { teamctx *c = (g_in_exec && CUR >= 0) ? curtc() :
 int omp_get_thread_num(void) { teamctx *c = (g_in_exec && CUR >= 0) ? curtc() : NULL; return c ? c->rank : 0; }
 int omp_get_max_threads(void) { return icb_team_size; }
 typedef struct { void (*fn)(void *); void *data; int size, rank, team; } tstart;
-static void team_member(void *a) { tstart *s = a; thr_t *t = &TH[CUR]; t->tc[t->tcdepth++] = (teamctx){s->size, s->rank, s->team}; s->fn(s->data); t->tcdepth--; }
+static void team_member(void *a) { tstart *s = a; thr_t *t = &TH[CUR]; t->tc[t->tcdepth++] = (teamctx){s->size, s->rank, s->team, 0, 0}; s->fn(s->data); t->tcdepth--; }
 static int seq_next = 0, seq_count = 0;
 static void parallel_common(void (*fn)(void *), void *data, unsigned num_threads, int nsections) {
   if (!g_in_exec || CUR < 0) { int sn = seq_next, sc = seq_count; seq_next = 1; seq_count = nsections; fn(data); seq_next = sn; seq_count = sc; return; }
@@ -219,11 +220,11 @@ static void parallel_common(void (*fn)(void *), void *data, unsigned num_threads
   int N = nested ? icb_nested_size : (num_threads ? (int)num_threads : icb_team_size);
   if (nested && t->tcdepth >= 2 && N > 1) { int deep = 0; for (int i = 0; i < t->tcdepth; i++) if (t->tc[i].size > 1) deep++; if (deep >= 2) N = 1; } /* at most two active levels */
   if (nteams >= 4096) { verdict(4, "too many teams"); return; }
-  int team = nteams++; TEAMS[team].next = 1; TEAMS[team].count = nsections;
+  int team = nteams++; memset(&TEAMS[team], 0, sizeof TEAMS[team]); TEAMS[team].next = 1; TEAMS[team].count = nsections;
   tstart ts[MAXT]; int me = CUR;
   for (int r = 1; r < N; r++) { ts[r] = (tstart){fn, data, N, r, team}; if (spawn_thread(me, team_member, &ts[r]) < 0) return; }
   if (N > 1) sched_point(1); /* who runs first */
-  t = &TH[me]; t->tc[t->tcdepth++] = (teamctx){N, 0, team};
+  t = &TH[me]; t->tc[t->tcdepth++] = (teamctx){N, 0, team, 0, 0};
   fn(data);
   t = &TH[me]; t->tcdepth--;
   if (N > 1) { sched_point(2); wait_children(); TH[me].vc[me]++; }
@@ -239,11 +240,72 @@ unsigned GOMP_sections_next(void) {
   return 0;
 }
 void GOMP_sections_end_nowait(void) {}
-void GOMP_sections_end(void) {}
-void GOMP_barrier(void) { verdict(4, "GOMP_barrier not modelled"); }
+/* team barrier: every member's clock is merged on arrival and acquired on release (all-to-all happens-before edges) */
+void GOMP_barrier(void) {
+  if (!g_in_exec || CUR < 0) return;
+  teamctx *c = curtc(); if (!c || c->size <= 1) return;
+  sched_point(10);
+  int me = CUR; c = curtc(); team_t *tm = &TEAMS[c->team]; int team = c->team, size = c->size;
+  for (int u = 0; u < MAXT; u++) if (TH[me].vc[u] > tm->barvc[u]) tm->barvc[u] = TH[me].vc[u];
+  TH[me].vc[me]++;
+  int gen = tm->gen;
+  if (++tm->arrived == size) {
+    tm->arrived = 0; tm->gen++; memcpy(tm->relvc, tm->barvc, sizeof tm->relvc); memset(tm->barvc, 0, sizeof tm->barvc);
+    for (int u = 0; u < MAXT; u++) if (TH[u].state == T_BARWAIT && TH[u].waitlock == team) TH[u].state = T_RUN;
+  } else {
+    while (tm->gen == gen && !TR->verdict) { TH[me].state = T_BARWAIT; TH[me].waitlock = team; swapcontext(&TH[me].ctx, &SCHED); }
+    TH[me].state = T_RUN; TH[me].waitlock = -1;
+  }
+  for (int u = 0; u < MAXT; u++) if (tm->relvc[u] > TH[me].vc[u]) TH[me].vc[u] = tm->relvc[u];
+}
+void GOMP_sections_end(void) { GOMP_barrier(); }
+/* work-sharing loops with a runtime-scheduled iteration space (dynamic / guided / runtime): which thread gets which chunk is a
+   scheduling decision; static schedules are inlined by the compiler and need no runtime call */
+static long seq_ws_done;
+static int ws_start(long start, long end, long incr, long chunk, long *is, long *ie) {
+  teamctx *c = (g_in_exec && CUR >= 0) ? curtc() : NULL;
+  if (!c) { seq_ws_done = 1; *is = start; *ie = end; return incr > 0 ? start < end : start > end; }
+  team_t *tm = &TEAMS[c->team]; int k = c->ws++;
+  if (k == tm->ws_inited) { tm->ws[k & 7] = (wshare_t){start, end, incr, chunk > 0 ? chunk : 1}; tm->ws_inited++; }
+  c->curws = k;
+  sched_point(3); c = curtc(); tm = &TEAMS[c->team];
+  wshare_t *w = &tm->ws[c->curws & 7];
+  if (w->incr > 0 ? w->next >= w->end : w->next <= w->end) return 0;
+  *is = w->next; long e = w->next + w->chunk * w->incr; if (w->incr > 0 ? e > w->end : e < w->end) e = w->end; *ie = e; w->next = e; return 1;
+}
+static int ws_next(long *is, long *ie) {
+  teamctx *c = (g_in_exec && CUR >= 0) ? curtc() : NULL;
+  if (!c) return 0;
+  sched_point(3); c = curtc(); team_t *tm = &TEAMS[c->team];
+  wshare_t *w = &tm->ws[c->curws & 7];
+  if (w->incr > 0 ? w->next >= w->end : w->next <= w->end) return 0;
+  *is = w->next; long e = w->next + w->chunk * w->incr; if (w->incr > 0 ? e > w->end : e < w->end) e = w->end; *ie = e; w->next = e; return 1;
+}
+_Bool GOMP_loop_dynamic_start(long s, long e, long i, long ch, long *is, long *ie) { return ws_start(s, e, i, ch, is, ie); }
+_Bool GOMP_loop_dynamic_next(long *is, long *ie) { return ws_next(is, ie); }
+_Bool GOMP_loop_nonmonotonic_dynamic_start(long s, long e, long i, long ch, long *is, long *ie) { return ws_start(s, e, i, ch, is, ie); }
+_Bool GOMP_loop_nonmonotonic_dynamic_next(long *is, long *ie) { return ws_next(is, ie); }
+_Bool GOMP_loop_guided_start(long s, long e, long i, long ch, long *is, long *ie) { return ws_start(s, e, i, ch, is, ie); }
+_Bool GOMP_loop_guided_next(long *is, long *ie) { return ws_next(is, ie); }
+_Bool GOMP_loop_nonmonotonic_guided_start(long s, long e, long i, long ch, long *is, long *ie) { return ws_start(s, e, i, ch, is, ie); }
+_Bool GOMP_loop_nonmonotonic_guided_next(long *is, long *ie) { return ws_next(is, ie); }
+_Bool GOMP_loop_maybe_nonmonotonic_runtime_start(long s, long e, long i, long *is, long *ie) { return ws_start(s, e, i, 1, is, ie); }
+_Bool GOMP_loop_maybe_nonmonotonic_runtime_next(long *is, long *ie) { return ws_next(is, ie); }
+_Bool GOMP_loop_runtime_start(long s, long e, long i, long *is, long *ie) { return ws_start(s, e, i, 1, is, ie); }
+_Bool GOMP_loop_runtime_next(long *is, long *ie) { return ws_next(is, ie); }
+void GOMP_loop_end(void) { GOMP_barrier(); }
+void GOMP_loop_end_nowait(void) {}
+_Bool GOMP_single_start(void) {
+  teamctx *c = (g_in_exec && CUR >= 0) ? curtc() : NULL;
+  if (!c) return 1;
+  sched_point(3); c = curtc(); team_t *tm = &TEAMS[c->team]; int k = c->ws++;
+  if (k == tm->ws_inited) { tm->ws_inited++; return 1; }
+  return 0;
+}
 void GOMP_critical_name_start(void **pptr) {
   if (!g_in_exec || CUR < 0) return;
   int li = -1; for (int i = 0; i < nlocks; i++) if (LOCKS[i].key == (void *)pptr) li = i;
+  if (li < 0 && nlocks >= 16) { verdict(4, "too many named critical sections"); return; }
   if (li < 0) { li = nlocks++; LOCKS[li].key = (void *)pptr; LOCKS[li].owner = -1; }
   sched_point(6);
   int me = CUR;
@@ -260,8 +322,27 @@ void GOMP_critical_name_end(void **pptr) {
     for (int u = 0; u < MAXT; u++) if (TH[u].state == T_LOCKWAIT && TH[u].waitlock == i) TH[u].state = T_RUN;
   }
 }
-void GOMP_critical_start(void) { static void *k; GOMP_critical_name_start(&k); }
-void GOMP_critical_end(void) { static void *k2; (void)k2; verdict(4, "unnamed critical not modelled"); }
+static void *unnamed_critical, *atomic_lock;
+void GOMP_critical_start(void) { GOMP_critical_name_start(&unnamed_critical); }
+void GOMP_critical_end(void) { GOMP_critical_name_end(&unnamed_critical); }
+void GOMP_atomic_start(void) { GOMP_critical_name_start(&atomic_lock); }
+void GOMP_atomic_end(void) { GOMP_critical_name_end(&atomic_lock); }
+/* compiler-generated atomics (#pragma omp atomic, __atomic builtins) arrive as __tsan_atomic*: modelled as one global lock
+   (sequentially consistent, so never weaker than the real thing for race-freedom of the OTHER accesses it orders) */
+#define ATOM(n, T) \
+  T __tsan_atomic##n##_load(const volatile T *a, int mo) { (void)mo; GOMP_atomic_start(); T v = *a; GOMP_atomic_end(); return v; } \
+  void __tsan_atomic##n##_store(volatile T *a, T v, int mo) { (void)mo; GOMP_atomic_start(); *a = v; GOMP_atomic_end(); } \
+  T __tsan_atomic##n##_exchange(volatile T *a, T v, int mo) { (void)mo; GOMP_atomic_start(); T o = *a; *a = v; GOMP_atomic_end(); return o; } \
+  T __tsan_atomic##n##_fetch_add(volatile T *a, T v, int mo) { (void)mo; GOMP_atomic_start(); T o = *a; *a = o + v; GOMP_atomic_end(); return o; } \
+  T __tsan_atomic##n##_fetch_sub(volatile T *a, T v, int mo) { (void)mo; GOMP_atomic_start(); T o = *a; *a = o - v; GOMP_atomic_end(); return o; } \
+  T __tsan_atomic##n##_fetch_and(volatile T *a, T v, int mo) { (void)mo; GOMP_atomic_start(); T o = *a; *a = o & v; GOMP_atomic_end(); return o; } \
+  T __tsan_atomic##n##_fetch_or(volatile T *a, T v, int mo) { (void)mo; GOMP_atomic_start(); T o = *a; *a = o | v; GOMP_atomic_end(); return o; } \
+  T __tsan_atomic##n##_fetch_xor(volatile T *a, T v, int mo) { (void)mo; GOMP_atomic_start(); T o = *a; *a = o ^ v; GOMP_atomic_end(); return o; } \
+  int __tsan_atomic##n##_compare_exchange_strong(volatile T *a, T *e, T v, int mo, int fmo) { (void)mo; (void)fmo; GOMP_atomic_start(); int ok = (*a == *e); if (ok) *a = v; else *e = *a; GOMP_atomic_end(); return ok; } \
+  int __tsan_atomic##n##_compare_exchange_weak(volatile T *a, T *e, T v, int mo, int fmo) { return __tsan_atomic##n##_compare_exchange_strong(a, e, v, mo, fmo); }
+ATOM(8, uint8_t) ATOM(16, uint16_t) ATOM(32, uint32_t) ATOM(64, uint64_t)
+void __tsan_atomic_thread_fence(int mo) { (void)mo; GOMP_atomic_start(); GOMP_atomic_end(); }
+void __tsan_atomic_signal_fence(int mo) { (void)mo; }
 
 /* ======================= allocator wrappers ======================= */
 void *__wrap_malloc(size_t n) { if (g_in_exec && CUR >= 0 && icb_alloc_points && !TH[CUR].holds) sched_point(7); void *p = __real_malloc(n); if (g_in_exec && p) { sh_clear_range(p, n); if (CUR >= 0) TH[CUR].rdhash = TH[CUR].rdhash * 31 + (uintptr_t)p; } return p; }
